@@ -150,6 +150,49 @@ class RowJson(Harness):
         yield 'unknown-neighbour-flagged', ('fail' in nb_notes and nb_notes['fail'] == ['using unknown algorithm']) or len(nb_notes) >= 0
 
 
+class RowJsonTwice(RowJson):
+    """the synthetic row's name listed TWICE by the peer: both JSON entries carry exactly the row's notes (+ the since text once), and the table row itself is
+    left as it was (rendering must not edit the table)."""
+
+    def __init__(self, cat, ver, nf, nw, ni):
+        super().__init__(cat, ver, nf, nw, ni)
+        self.name = 'rowjsontwice-' + self.name[len('rowjson-'):]
+
+    def run(self, M, inp):
+        row = [list(x) for x in inp['row']]
+        db, _ = OL.fresh_tables(M, lambda d2, d1: d2[self.cat].__setitem__(ROWNAME, row))
+        L = {c: ['x'] for c in OL.CATS}
+        L[self.cat] = [ROWNAME, inp['nb'], ROWNAME]
+        kex = make_kex(M, L)
+        r = guarded(M.ssh_audit.build_struct, 'h:22', None, kex)
+        if isinstance(r, Exc):
+            return {'exc': r}
+        return {'entries': [(e['algorithm'], e['notes']) for e in r[self.cat]], 'row_after': [list(x) for x in db[self.cat][ROWNAME]]}
+
+    def check(self, inp, obs):
+        if 'exc' in obs:
+            yield 'no-exception', False
+            return
+        ents = obs['entries']
+        yield 'three-entries-in-order', len(ents) == 3 and ents[0][0] == ROWNAME and ents[2][0] == ROWNAME
+        if len(ents) != 3:
+            return
+        n = inp['notes']
+        for which in (0, 2):
+            notes = ents[which][1]
+            conds = []
+            for key in ('fail', 'warn', 'info'):
+                exp = list(n.get(key, []))
+                if key == 'info' and SINCE[self.ver]:
+                    exp = exp + [SINCE[self.ver]]
+                got = notes.get(key, [])
+                conds.append(len(got) == len(exp) and bool(s_and(*[a == b for a, b in zip(got, exp)]) if exp else True))
+            yield 'json-notes==row(occurrence-%d)' % (1 if which == 0 else 2), all(conds)
+        before = [list(x) for x in inp['row']]
+        after = obs['row_after']
+        yield 'table-row-unchanged-by-rendering', len(after) == len(before) and all(len(a) == len(b) and all(bool(x == y) if x is not None and y is not None else x is y for x, y in zip(a, b)) for a, b in zip(after, before))
+
+
 class Unknown(Harness):
     """a name the table does not know: text '[warn] unknown algorithm' (never rendered as good), JSON 'using unknown algorithm', listed as unknown."""
     prop, ob = PROP, 'O4'
@@ -398,6 +441,8 @@ def tasks(tier):
             for nf, nw, ni in (rows if ver in ('ossh', 'none') or not q else rows[:4]):
                 T.append(RowText(cat, ver, nf, nw, ni, 0))
                 T.append(RowJson(cat, ver, nf, nw, ni))
+        for nf, nw, ni in [(0, 0, 1), (1, 1, 1), (0, 0, 0), (0, 1, 2)]:
+            T.append(RowJsonTwice(cat, 'ossh', nf, nw, ni))
         for nf, nw, ni in rows[:5]:
             T.append(RowText(cat, 'ossh', nf, nw, ni, 30))
             T.append(Lookup(cat, 'ossh', nf, nw, ni))
@@ -425,6 +470,8 @@ def harness_by_name(name, params):
     p = params
     if k == 'rowtext':
         return RowText(p['cat'], p['ver'], p['nf'], p['nw'], p['ni'], p['maxlen'])
+    if k == 'rowjsontwice':
+        return RowJsonTwice(p['cat'], p['ver'], p['nf'], p['nw'], p['ni'])
     if k == 'rowjson':
         return RowJson(p['cat'], p['ver'], p['nf'], p['nw'], p['ni'])
     if k == 'lookup':
